@@ -75,6 +75,14 @@ CHECKS = {
              'its own run; final construction must throw dzn::binding_error, and must succeed and record the parent when '
              'nothing is omitted; late client registration must be refused.',
         note=TRUST_CXX, design='C10'),
+    'C11': dict(
+        technique='generated thread schedules: harness-owned deterministic scheduler (bounded-exhaustive stateless DFS over deviations + Hypothesis-sampled programs/schedules) with a trace oracle, plus free-running perturbation fuzzing under ThreadSanitizer; MutexWrapped op-list fuzzing under TSan',
+        text='Interleavings of 2-3 client threads, the dispatcher and an out-event raising environment are the generated '
+             'input: all schedules up to a deviation bound are enumerated for the smallest program, larger programs are '
+             'sampled; the claim-holder oracle is evaluated on the totally ordered trace, deadlocks are structural; '
+             'ThreadSanitizer decides data races / lock misuse on free runs. Bounded: hook-point granularity, <= 3 '
+             'clients, <= 3 cycles.',
+        note=TRUST_CXX + '; harness-owned scheduler mockrt/verif_sched.hh; clang 14 ThreadSanitizer', design='C11'),
     'C12': dict(
         technique='model-based generation of build histories (operation sequences) with snapshot invariants and a differential against a fresh interpreter per build; failing histories delta-debugged',
         text='Sequences of builds over shared parsed models with valid and invalid configurations and kept/fresh builders; '
